@@ -28,7 +28,7 @@ ASSUMPTIONS = ["the behaviour/default tables re-stated here are the documented o
 MONITORS = ["policy_outcome", "first_offender_named", "unmodified", "second_call_same", "roundtrip_sm_ssc_sm"]
 REQUIRED = ["returned", "InvalidPropertyException", "NotImplementedError", "partial_mapping", "default_with_blanks",
             "nonempty_default_value", "two_offenders_table_order_differs", "template_with_charts", "chart_offender",
-            "copy_anyway_simfile_level", "error_behaviour"]
+            "copy_anyway_simfile_level", "error_behaviour", "template_empty"]
 
 COPY, IGNORE, UNLESS_DEFAULT, ERROR = 1, 2, 3, 4
 KINDS = ["SSC_VERSION", "METADATA", "FILE_PATH", "GAMEPLAY_EVENT", "TIMING_DATA"]
@@ -125,7 +125,7 @@ def cases(ctx):
     n = ctx.split(4000 if quick else 16 * 30000)
     for i in range(n):
         yield {"kind": "one", "source": gen_source(rng), "mapping": gen_mapping(rng),
-               "template": rng.choice(["none", "none", "blank", "sparse", "with_charts"]),
+               "template": rng.choice(["none", "none", "blank", "sparse", "with_charts", "empty"]),
                "chart_template": rng.choice(["none", "none", "blank", "custom"])}
     # all 4^5 mappings on small simfiles
     smalls = ctx.split(2 if quick else 64)
@@ -211,6 +211,8 @@ def templates(case):
         c = SMChart.blank()
         c.description = "template chart"
         st.charts.append(c)
+    elif t == "empty":
+        st = SMSimfile(string="")
     c_ = case.get("chart_template", "none")
     if c_ == "blank":
         ct = SMChart.blank()
@@ -314,6 +316,8 @@ def observe(ctx, source, mapping, case):
         ctx.feat("error_behaviour")
     if case.get("template") == "with_charts":
         ctx.feat("template_with_charts")
+    if case.get("template") == "empty":
+        ctx.feat("template_empty")
     if not offenders and not dict(source["items"]).get("WARPS"):
         for its in source["charts"]:
             for k, v in its:
